@@ -105,7 +105,7 @@ PROPS["C05"]["theorem_modules"] = PROPS["C05"]["theorem_modules"] + ["DecProofs.
 PROPS["C14"]["theorem_modules"] = PROPS["C14"]["theorem_modules"] + ["DecProofs.Properties.C14GenFrame"]
 for _pid in ("C01", "C02"):
     PROPS[_pid]["theorem_modules"] = PROPS[_pid]["theorem_modules"] + ["DecProofs.Properties.C01GenMul"]
-PROPS["C06"]["theorem_modules"] = PROPS["C06"]["theorem_modules"] + ["DecProofs.Properties.C06GenToUInt32"]
+PROPS["C06"]["theorem_modules"] = PROPS["C06"]["theorem_modules"] + ["DecProofs.Properties.C06GenToUInt32", "DecProofs.Properties.C06GenToUInt64"]
 PROPS["C11"]["theorem_modules"] = PROPS["C11"]["theorem_modules"] + ["DecProofs.Properties.C11GenLogb", "DecProofs.Properties.C09GenQuantize"]
 PROPS["C06"]["theorem_modules"] = PROPS["C06"]["theorem_modules"] + ["DecProofs.Properties.C06GenToInt", "DecProofs.Properties.C06GenToIntRN"]
 PROPS["C09"]["theorem_modules"] = PROPS["C09"]["theorem_modules"] + ["DecProofs.Properties.C09GenQuantize"]
